@@ -981,7 +981,10 @@ func (fv *FuncVerifier) inlineRepoFunc(st *State, env *Env, call *ast.CallExpr, 
 	defer func() { fv.inlineStack = fv.inlineStack[:len(fv.inlineStack)-1] }()
 	lit := &ast.FuncLit{Type: fi.Decl.Type, Body: fi.Decl.Body}
 	res := fv.inlineClosure(st, env, &Closure{Lit: lit, Info: info, Sig: sig}, args, call.Lparen)
-	// Go maps are references: what the helper stored into a map parameter is visible to the caller
+	// Go maps are references, and a slice parameter shares its backing array with the caller's slice: what the helper
+	// stored into a map parameter, or into the ELEMENTS of a slice parameter, is visible to the caller
+	hws := &writeSet{vars: map[types.Object]bool{}, heap: map[string]bool{}}
+	fv.collectWrites(&Env{info: info}, fi.Decl.Body, hws, 1)
 	i := 0
 	for _, f := range fi.Decl.Type.Params.List {
 		for _, n := range f.Names {
@@ -989,6 +992,21 @@ func (fv *FuncVerifier) inlineRepoFunc(st *State, env *Env, call *ast.CallExpr, 
 				if _, isMap := o.Type().Underlying().(*types.Map); isMap && isLvalue(call.Args[i]) {
 					if v, ok := st.vars[o]; ok {
 						fv.assignTo(st, env, call.Args[i], v, nil)
+					}
+				}
+				if _, isSl := o.Type().Underlying().(*types.Slice); isSl && isLvalue(call.Args[i]) && hws.vars[o] {
+					if v, ok := st.vars[o]; ok && fv.w.IsSeq(v.Sort) {
+						if hws.whole[o] {
+							// the helper re-assigned its parameter (append / reslice): the caller keeps its length, its
+							// elements may have been overwritten
+							cur := fv.eval(st, env, call.Args[i])
+							nv := fv.fresh("elems_"+o.Name(), v.Sort)
+							st.Assume(App(SBool, "=", fv.w.SeqLen(nv), fv.w.SeqLen(cur)))
+							st.Assume(fv.typeInv(nv, o.Type()))
+							fv.assignTo(st, env, call.Args[i], nv, nil)
+						} else {
+							fv.assignTo(st, env, call.Args[i], v, nil)
+						}
 					}
 				}
 			}
